@@ -50,4 +50,18 @@ calls return (end-of-stream, or bytes committed before the close). -/
 def closedOk (unfinished : Nat) (pLocked cLocked : Bool) : Bool :=
   unfinished == 0 && !pLocked && !cLocked
 
+/-- C15, "Close … makes every blocked or later call … return … with end-of-stream", consumer side (with the drain
+reading of DESIGN §8: bytes committed before `Close` are still handed out): a consumer call may DECIDE for end-of-stream
+only in a state in which the ring is closed and fewer bytes are buffered than the call waits for (`need`: the count
+asked of `ReadWait`, one byte for `Read` / `ReadPeek`). -/
+def eofOk (done : Bool) (need buffered : Nat) : Bool := done && decide (buffered < need)
+
+/-- C15, the same sentence, producer side: a producer call that is BLOCKED (parked in its wait) when the ring is closed,
+and every LATER producer call (the producer was between two calls when the ring was closed, or comes after), is doomed:
+it must not return success.  `was` = doomed already; the flag never falls (a closed ring stays closed). -/
+def doomed (was done parkedOrIdle : Bool) : Bool := was || (done && parkedOrIdle)
+
+/-- …what a doomed producer call may return: anything but success -/
+def doomedRetOk (isDoomed retOk : Bool) : Bool := !(isDoomed && retOk)
+
 end Mqtt.Spec.Ring
